@@ -5,7 +5,7 @@
  *        2 = normal mode with configuration (equipment present) — added with the simulated bus. */
 #include "../fw/explore.h"
 #include "../fw/hx.h"
-#include "/repo/include/bidib.h"
+#include "include/bidib.h"
 #include <stdio.h>
 #include <stdlib.h>
 #include <string.h>
